@@ -7,7 +7,7 @@ pattern.
 * `term <N> <tokens> <n> <fieldnorm_id> <tf> <boost bits>` →
   `score explain idf weight norm maxscore` (bit patterns)
 * `tree <N> <tokens> <rpn>` → `score explain` of a query tree (one matching document), RPN items
-  separated by `,`: `t.<n>.<fid>.<tf>` | `b.<bits>` | `c.<bits>` | `s.<k>` | `d.<k>.<tie bits>`
+  separated by `,`: `t.<n>.<fid>.<tf>` | `p.<n1>+<n2>….<fid>.<count>` | `b.<bits>` | `c.<bits>` | `s.<k>` | `d.<k>.<tie bits>`
 * `fn <id>` → `id_to_fieldnorm`; `fnid <fieldnorm>` → `fieldnorm_to_id`
 * `corpus <term> <segmentation> <seg> <doc> <boost bits>` → `N tokens n fid tf score`;
   segmentation: segments `|`, documents `,`, token ids `.`, empty document `-`
@@ -30,6 +30,11 @@ def rpnStep (st : List T) (item : String) : Option (List T) :=
   | ["t", n, fid, tf] =>
     match n.toNat?, fid.toNat?, tf.toNat? with
     | some n, some fid, some tf => if fid < 256 then some (.term n fid tf :: st) else none
+    | _, _, _ => none
+  | ["p", dfs, fid, cnt] =>
+    -- phrase leaf: doc freqs of the terms joined by `+`
+    match (dfs.splitOn "+").mapM (·.toNat?), fid.toNat?, cnt.toNat? with
+    | some ns, some fid, some c => if fid < 256 then some (.phrase ns fid c :: st) else none
     | _, _, _ => none
   | ["b", bits] =>
     match ofBits? bits, st with
